@@ -103,14 +103,15 @@ func (row synRow) accepted(i int) int {
 }
 
 type c8ctx struct {
-	p       *Prog
-	r       *Report
-	isNode  *types.Named
-	wrapFn  *types.Func // func(ast.IsNode) parser.IsNode
-	childFn *types.Func // func(rank, ast.IsNode, *bytes.Buffer)
-	precM   string      // method names of the printer interface
-	emitM   string
-	rankT   types.Type
+	p           *Prog
+	r           *Report
+	isNode      *types.Named
+	wrapFn      *types.Func   // func(ast.IsNode) parser.IsNode
+	childFn     *types.Func   // func(rank, ast.IsNode, *bytes.Buffer)
+	receiverFns []*types.Func // wrappers of childFn used for receiver positions
+	precM       string        // method names of the printer interface
+	emitM       string
+	rankT       types.Type
 }
 
 func runC08(p *Prog, r *Report) {
@@ -135,6 +136,7 @@ func (c *c8ctx) anchors() bool {
 		return false
 	}
 	var printerIface *types.Named
+	var childCands []*types.Func
 	scope := pk.Types.Scope()
 	for _, name := range scope.Names() {
 		fo, ok := scope.Lookup(name).(*types.Func)
@@ -154,9 +156,30 @@ func (c *c8ctx) anchors() bool {
 		}
 		if sig.Params().Len() == 3 && sig.Results().Len() == 0 && types.Identical(sig.Params().At(1).Type(), c.isNode) {
 			if b, ok := sig.Params().At(0).Type().Underlying().(*types.Basic); ok && b.Info()&types.IsInteger != 0 {
-				c.childFn = fo
+				childCands = append(childCands, fo)
 				c.rankT = sig.Params().At(0).Type()
 			}
+		}
+	}
+	// the child printer is the candidate that calls no other candidate; the others are wrappers for special positions
+	// (the receiver of an attribute access / method call)
+	for _, cand := range childCands {
+		callsOther := false
+		if f := p.SSA.FuncValue(cand); f != nil {
+			for _, cl := range callsIn(f) {
+				if g := cl.Common().StaticCallee(); g != nil {
+					for _, o := range childCands {
+						if o != cand && g.Object() == types.Object(o) {
+							callsOther = true
+						}
+					}
+				}
+			}
+		}
+		if callsOther {
+			c.receiverFns = append(c.receiverFns, cand)
+		} else {
+			c.childFn = cand
 		}
 	}
 	if c.wrapFn == nil || c.childFn == nil || printerIface == nil {
@@ -182,9 +205,10 @@ func (c *c8ctx) anchors() bool {
 }
 
 type c8child struct {
-	path string
-	req  int
-	loop bool
+	path     string
+	req      int
+	loop     bool
+	receiver bool // printed through the receiver wrapper (which also parenthesises a negative integer literal)
 }
 
 type c8row struct {
@@ -209,6 +233,9 @@ func (c *c8ctx) printerRowsHyp(K types.Type, extra map[string]types.Type) []c8ro
 			s.hypType[k] = v
 		}
 		s.eventFns = map[*types.Func]string{c.childFn: "child"}
+		for _, rf := range c.receiverFns {
+			s.eventFns[rf] = "receiver"
+		}
 		s.sink = "buf"
 		s.opaque = valueCodecOpaque
 		return s
@@ -242,8 +269,8 @@ func (c *c8ctx) printerRowsHyp(K types.Type, extra map[string]types.Type) []c8ro
 			evs, _ := o.State.([]sevEvent)
 			for _, e := range evs {
 				switch e.Kind {
-				case "child":
-					ch := c8child{req: -1, loop: e.Loop > 0}
+				case "child", "receiver":
+					ch := c8child{req: -1, loop: e.Loop > 0, receiver: e.Kind == "receiver"}
 					if k, ok := e.Args[0].(tConst); ok {
 						if n, ok := constInt64(k); ok {
 							ch.req = int(n)
@@ -448,7 +475,7 @@ func (c *c8ctx) table() {
 				r.Undec(rule, cs, pos, "the printer of "+kname+" is outside the idioms the extraction understands: "+row.abort)
 				continue
 			}
-			wantOwn := literalRank(lang.rank, row.assume)
+			wantOwn := lang.rank
 			r.Check(row.own == wantOwn, "R8.2-own-rank", cs, pos, kname+" prints at rank "+itoa(row.own),
 				kname+" declares rank "+itoa(row.own)+" to its parent; the grammar places it at rank "+itoa(wantOwn)+": parents will add or omit parentheses wrongly")
 			// children: order and demanded rank
@@ -460,6 +487,8 @@ func (c *c8ctx) table() {
 					if lang.form == "call" && !ch.loop && i == 0 {
 						r.Check(ch.req >= lang.rank, rule, cs+":receiver", pos, "receiver demanded at rank "+itoa(ch.req),
 							"the receiver of a method-style call is demanded at rank "+itoa(ch.req)+", the grammar needs "+itoa(lang.rank))
+						r.Check(ch.receiver, "R8.2-receiver-literal", cs+":receiver", pos, "the receiver is printed through the receiver wrapper",
+							"the receiver of a method-style extension call is printed by the plain child printer: a negative integer literal there is printed bare and does not parse back")
 					}
 				}
 				r.OK(rule, cs, pos, "bracketed children ("+itoa(len(row.children))+" positions) accept any expression")
@@ -477,6 +506,10 @@ func (c *c8ctx) table() {
 				if ch.path != want[i] {
 					r.Viol(rule, cs+":operand"+itoa(i), pos, "operand "+itoa(i)+" printed is "+ch.path+", the constructor's operand "+itoa(i)+" is "+want[i]+": operands are printed in the wrong order")
 					continue
+				}
+				if i == 0 && (lang.form == "access" || lang.form == "method" || lang.form == "method0") {
+					r.Check(ch.receiver, "R8.2-receiver-literal", cs+":receiver", pos, "the receiver is printed through the receiver wrapper (a negative integer literal is parenthesised there)",
+						"the receiver of "+kname+" is printed by the plain child printer: a negative integer literal is written with a leading '-', so `(-1)"+strings.TrimSuffix(lang.tok, "()")+"…` is printed as `-1"+strings.TrimSuffix(lang.tok, "()")+"…`, which the parser reads as a literal followed by text it cannot continue with")
 				}
 				acc := lang.accepted(i)
 				r.Check(ch.req >= acc, rule, cs+":operand"+itoa(i), pos, "operand "+itoa(i)+" ("+ch.path+") demanded at rank "+itoa(ch.req)+" ≥ accepted "+itoa(acc),
@@ -548,64 +581,79 @@ func (c *c8ctx) parenDecision() {
 			}
 		}
 	}
-	for _, K := range sealed.Impls {
-		kname := namedOf(K).Obj().Name()
-		lang, known := langSyntax[kname]
-		if !known {
-			continue
-		}
-		bad := ""
-		hyps := c.literalHyps(K, "ch")
-		if hyps == nil {
-			hyps = []c8hyp{{"", nil}}
-		}
-		for _, h := range hyps {
-			for q := 0; q <= 9 && bad == ""; q++ {
-				outs := runForks(func() *sev {
-					s := newSev(p)
-					s.hypType["ch"] = K
-					for k, v := range h.hyp {
-						s.hypType[k] = v
-					}
-					s.eventFns = evFns
-					s.sink = "buf"
-					return s
-				}, func(s *sev) (tv, any) {
-					buf := &tSym{Name: "buf", T: c.childFn.Type().(*types.Signature).Params().At(2).Type()}
-					s.callFn(nil, &tFn{Obj: c.childFn}, []tv{tConst{constantMakeInt(int64(q))}, &tSym{Name: "ch", T: c.isNode}, buf}, false, nil)
-					return nil, append([]sevEvent{}, s.events...)
-				})
-				for _, o := range outs {
-					if o.Abort != "" {
-						bad = "not understood: " + o.Abort
-						break
-					}
-					evs, _ := o.State.([]sevEvent)
-					text := ""
-					emits := 0
-					for _, e := range evs {
-						switch e.Kind {
-						case "lit":
-							text += e.Text
-						case "emit":
-							emits++
-							text += "•"
+	printers := append([]*types.Func{c.childFn}, c.receiverFns...)
+	for pi, printerFn := range printers {
+		isReceiver := pi > 0
+		for _, K := range sealed.Impls {
+			kname := namedOf(K).Obj().Name()
+			lang, known := langSyntax[kname]
+			if !known {
+				continue
+			}
+			bad := ""
+			hyps := c.literalHyps(K, "ch")
+			if hyps == nil {
+				hyps = []c8hyp{{"", nil}}
+			}
+			for _, h := range hyps {
+				for q := 0; q <= 9 && bad == ""; q++ {
+					outs := runForks(func() *sev {
+						s := newSev(p)
+						s.hypType["ch"] = K
+						for k, v := range h.hyp {
+							s.hypType[k] = v
 						}
-					}
-					rk := literalRank(lang.rank, h.label+" "+assumeString(o.Assume))
-					wantParen := rk < q
-					switch {
-					case emits != 1:
-						bad = "child printed " + itoa(emits) + " times at demanded rank " + itoa(q)
-					case wantParen && text != "(•)":
-						bad = "a " + kname + " " + h.label + " (rank " + itoa(rk) + ") under a position demanding rank " + itoa(q) + " is written as `" + text + "`: parentheses are required"
-					case !wantParen && text != "•":
-						bad = "a " + kname + " " + h.label + " (rank " + itoa(rk) + ") under a position demanding rank " + itoa(q) + " is written as `" + text + "`: no parentheses are needed"
+						s.eventFns = evFns
+						s.sink = "buf"
+						return s
+					}, func(s *sev) (tv, any) {
+						buf := &tSym{Name: "buf", T: c.childFn.Type().(*types.Signature).Params().At(2).Type()}
+						s.callFn(nil, &tFn{Obj: printerFn}, []tv{tConst{constantMakeInt(int64(q))}, &tSym{Name: "ch", T: c.isNode}, buf}, false, nil)
+						return nil, append([]sevEvent{}, s.events...)
+					})
+					for _, o := range outs {
+						if o.Abort != "" {
+							bad = "not understood: " + o.Abort
+							break
+						}
+						evs, _ := o.State.([]sevEvent)
+						text := ""
+						emits := 0
+						for _, e := range evs {
+							switch e.Kind {
+							case "lit":
+								text += e.Text
+							case "emit":
+								emits++
+								text += "•"
+							case "dyn":
+								// the literal written directly (the receiver wrapper renders a negative integer itself)
+								emits++
+								text += "•"
+							}
+						}
+						rk := lang.rank
+						wantParen := rk < q
+						if isReceiver && literalRank(lang.rank, h.label+" "+assumeString(o.Assume)) < lang.rank {
+							wantParen = true // a negative integer literal is always parenthesised as a receiver
+						}
+						switch {
+						case emits != 1:
+							bad = "child printed " + itoa(emits) + " times at demanded rank " + itoa(q)
+						case wantParen && text != "(•)":
+							bad = "a " + kname + " " + h.label + " (rank " + itoa(rk) + ") under a position demanding rank " + itoa(q) + " is written as `" + text + "`: parentheses are required"
+						case !wantParen && text != "•":
+							bad = "a " + kname + " " + h.label + " (rank " + itoa(rk) + ") under a position demanding rank " + itoa(q) + " is written as `" + text + "`: no parentheses are needed"
+						}
 					}
 				}
 			}
+			cons := "parser." + kname
+			if isReceiver {
+				cons = "parser." + printerFn.Name() + "~" + kname
+			}
+			r.Check(bad == "", rule, cons, p.pos(printerFn.Pos()), "parenthesised exactly under positions demanding more than rank "+itoa(lang.rank)+map[bool]string{true: " (and always when it is a negative integer literal)", false: ""}[isReceiver && kname == "NodeValue"], bad)
 		}
-		r.Check(bad == "", rule, "parser."+kname, p.pos(c.childFn.Pos()), "parenthesised exactly under positions demanding more than rank "+itoa(lang.rank), bad)
 	}
 	r.Floor(rule, 28)
 }
